@@ -273,7 +273,9 @@ class Engine:
         if not self.prune:
             return True
         q = self.axioms() + st.pc + ([cond] if cond is not None else [])
-        r, _ = smt.check_sat(q, timeout_ms=2000)
+        # pruning only: `unknown` keeps the path (sound); a contract whose path conditions carry quantified
+        # set axioms may lower the budget, since sat-with-quantifiers queries run into the timeout
+        r, _ = smt.check_sat(q, timeout_ms=getattr(self.ctx, 'feas_timeout_ms', 2000))
         if r == 'unsat':
             self.stats['pruned'] += 1
             return False
@@ -1261,6 +1263,14 @@ class Engine:
         kw = dict(kwargs)
         if '**' in kw and isinstance(kw['**'], EmptyDictV):
             del kw['**']
+        if '**' in kw and isinstance(kw['**'], KwArgsV):
+            ka = kw.pop('**')
+            for k, v in ka.items.items():
+                if k in kw:
+                    raise Unsupported('keyword %s given twice' % k)
+                kw[k] = v
+            if ka.rest is not None:
+                kw['**'] = ka.rest
         return out, kw
 
     def call_closure(self, f, args, kwargs, st):
@@ -1337,6 +1347,13 @@ class Engine:
             bound[fn.args.vararg.arg] = TupleV(pos[len(params):])
         elif len(pos) > len(params):
             raise Unsupported('too many args')
+        if fn.args.kwarg is not None:
+            _, kwargs = self.flatten_args([], kwargs)
+            known = set(params) | {a.arg for a in fn.args.kwonlyargs}
+            extra = {k: v for k, v in kwargs.items() if k not in known and k != '**'}
+            rest = kwargs.get('**')
+            kwargs = {k: v for k, v in kwargs.items() if k in known}
+            bound[fn.args.kwarg.arg] = KwArgsV(extra, rest)
         for k, v in kwargs.items():
             bound[k] = v
         for a, d in zip(fn.args.kwonlyargs, fn.args.kw_defaults):
@@ -1380,6 +1397,7 @@ class Engine:
             s2 = st.fork()
             return [(s2, self.new_exc(s2, c.name))]
         if '%s:%s' % (self.mod, c.name) in self.src.classes:
+            args, kwargs = self.flatten_args(args, kwargs)
             return [(st, StageV(c.name, args, kwargs))]
         raise Unsupported('constructor %s' % c.name)
 
@@ -2587,6 +2605,16 @@ class RngV(Val):
 
 class EmptyDictV(Val):
     kind = 'emptydict'
+
+
+class KwArgsV(Val):
+    """the `**kwargs` dict of a call: statically known extra keywords plus (optionally) an opaque rest that is
+    only ever passed on as `**kwargs` again"""
+    kind = 'kwargs'
+
+    def __init__(self, items=None, rest=None):
+        self.items = dict(items or {})
+        self.rest = rest
 
 
 class QueueV(Val):
